@@ -49,7 +49,10 @@ def run(p, cells, seed=0, enc=None, X=None, resets=(), bads=()):
     conf = {"tn": 1, "fn": 1, "fp": 1, "tp": 1}
     seen = set()
     from .core import Neighbour
-    nb = Neighbour(make(dict(p, num_mc=20)), lambda o, u: o.update(int(u < 0.5), int((u * 7) % 1 < 0.6)), len(cells))
+    # the neighbour: same class, its own stream; in every third run it shares the observed detector's decay factor and num_mc but has very loose
+    # levels (what ONE detector reports is a function of what IT was given and of ITS OWN parameters)
+    nbp = dict(p, num_mc=20) if ((seed + len(cells)) % 3 or len(cells) > 400) else dict(p, wl=0.5, dl=0.45, burn=0, sub=1, tracked=sorted(RATES))
+    nb = Neighbour(make(dict(nbp, par=False)), lambda o, u: o.update(int(u < 0.5), int((u * 7) % 1 < 0.6)), len(cells))
     for t, (yt, yp) in enumerate(cells):
         nb.step()
         if t in resets:
